@@ -37,12 +37,8 @@ class C06(Monitor):
         client = e.client
         if s.kind == 'call':
             return self._call(w, e, s)
-        if s.snap['closed'] or len(s.units) != 1:
-            return
-        if s.quirk:
-            return
-        if not s.ok and s.trailing >= 9:
-            return      # the error may belong to the header of the next, still incomplete frame
+        if s.snap['closed'] or not s.exact or s.quirk:
+            return      # only steps with exactly one dispatch unit are judged (exact attribution)
         f = s.units[0]
         pre = s.pre[0]
         mine = s.snap['mine']
@@ -121,8 +117,7 @@ class C06(Monitor):
                 elif pre.recv == TRAILERS:
                     v = rules.either(('conn', P), ('stream', P), ('conn', C.STREAM_CLOSED), ('stream', C.STREAM_CLOSED))
             elif f.type == C.WINDOW_UPDATE:
-                if pre is not None and pre.send_win + f.increment > MAXID:
-                    v = rules.either(('stream', C.FLOW_CONTROL_ERROR), ('conn', C.FLOW_CONTROL_ERROR))
+                pass
             elif f.type == C.PUSH_PROMISE:
                 if not mine.get(C.S_ENABLE_PUSH, 1):
                     v = ('conn', P)
@@ -132,6 +127,8 @@ class C06(Monitor):
                         v = rules.either(('conn', P), ('stream', P))
                     elif conformant(wire, 'request') is not None:
                         return
+        if f.type == C.WINDOW_UPDATE and pre is not None and pre.state != 'closed' and pre.send_win + f.increment > MAXID:
+            v = rules.either(('stream', C.FLOW_CONTROL_ERROR), ('conn', C.FLOW_CONTROL_ERROR))
         # what the library did
         if not s.ok:
             r = ('conn', s.exc['code'])
@@ -155,6 +152,9 @@ class C06(Monitor):
         self.nontrivial = True
         if not vmatch(v, r):
             kind = 'frame-reaction'
+            if f.type == C.HEADERS and pre is not None and pre.state == 'hcR' and f.headers is not None and \
+                    rules.is_info([(n, v_) for n, v_, _ in f.headers]) and r == ('conn', P):
+                kind = 'info-headers-after-end'
             if ('conn' in self.fsm_refused[s.ep]) or (f.sid in self.fsm_refused[s.ep]):
                 kind = 'poisoned-by-refused-call'
             self.fail(kind, '%s %s in state %s: expected %s, got %s' % (
